@@ -50,6 +50,42 @@ Theorem C09_reads_invisible : forall ops s, gas s = None -> no_gas_ops ops ->
 Proof. exact reads_invisible. Qed.
 Print Assumptions C09_reads_invisible.
 
+(* (3') reads AND discarded sessions together, for whole histories: after any operation sequence
+   and after the same sequence without its reads and without the sessions that end up discarded
+   ([strip], the sequence the harness runs on a second real store), everything but the open
+   session is identical — in particular the tree-call log [wlog] INCLUDING ITS ORDER and the
+   block cache including its first-write order, so the root hash cannot depend on them *)
+Theorem C09_discarded_sessions_and_reads_invisible : forall ops s,
+  gas s = None -> sess s = None -> no_gas_ops ops ->
+  with_sess (final s ops) None = with_sess (final s (strip ops)) None.
+Proof. exact strip_invisible. Qed.
+Print Assumptions C09_discarded_sessions_and_reads_invisible.
+
+Theorem C09_tree_calls_independent_of_discarded_sessions : forall ops s,
+  gas s = None -> sess s = None -> no_gas_ops ops ->
+  let a := final s ops in let b := final s (strip ops) in
+  wlog a = wlog b /\ okeys (cache a) = okeys (cache b) /\ ovals (cache a) = ovals (cache b) /\
+  tree a = tree b /\ saved a = saved b /\ version a = version b.
+Proof. exact strip_same_tree_calls. Qed.
+Print Assumptions C09_tree_calls_independent_of_discarded_sessions.
+
+(* the call list the harness feeds to its bare-tree twin is the model's tree-call log *)
+Theorem C09_tree_calls_are_the_log : forall ops s,
+  map tcall_of (wlog (final s ops)) = map tcall_of (wlog s) ++ filter not_reopen (tree_calls s ops).
+Proof. exact tree_calls_are_wlog. Qed.
+Print Assumptions C09_tree_calls_are_the_log.
+
+(* the order matters to the model: the same surviving writes in another first-write order are
+   a different tree-call log (what a stale order index of a discarded session would produce) *)
+Example C09_tree_calls_order_sensitive :
+  let r := {| recent := 0; every := 0; cycles := 0 |} in
+  tree_calls (init r) [BeginTx; Set_ 3%N [1%N]; DiscardTx;
+                       BeginTx; Set_ 1%N [1%N]; Set_ 2%N [1%N]; Set_ 3%N [1%N]; CommitTx; BlockCommit]
+  = [CSet 1%N [1%N]; CSet 2%N [1%N]; CSet 3%N [1%N]; CSave] /\
+  tree_calls (init r) [BeginTx; Set_ 3%N [1%N]; Set_ 1%N [1%N]; Set_ 2%N [1%N]; CommitTx; BlockCommit]
+  = [CSet 3%N [1%N]; CSet 1%N [1%N]; CSet 2%N [1%N]; CSave].
+Proof. vm_compute. split; reflexivity. Qed.
+
 (* below the gas limit the metered store is the gas-free store (outputs and all state but the
    counter), so (2) and (3) carry over to metered runs *)
 Theorem C09_gas_erasure : forall ops s s0, gas_guarded s ops -> erase s = erase s0 ->
